@@ -657,3 +657,6 @@ LEVEL_NOTE = LEVEL_NOTE + (" Model = code: coq/Gen/DurationFloat.v is translated
                            "arguments, so a semantic edit of that code breaks a proof (self-tested with five mutations: `total < 0` -> `<= 0`, `% m` dropped, 1e6 -> 1e3, abs() removed, "
                            "SECONDS_PER_DAY replaced) rather than only a source pin. Not translated: the float-`seconds` constructor path used by + - * (Model/DurationOps.duration_new_fsec), "
                            "_to_microseconds and __neg__ (integer code: translated by g50 for C10).")
+
+LEVEL_NOTE = LEVEL_NOTE + (" Update: the float-`seconds` constructor path (Duration(seconds=<float>, years=, months=)) is translated as well (Gen/DurationOpsFloat.gen_duration_new_fsec, "
+                           "Spec/TdFloatMixed.td_of_days_fsec) and proved equal to Model/DurationOps.duration_new_fsec: Props/C10.v model_is_code_duration_new_fsec.")
